@@ -202,6 +202,15 @@ func corpus() []corpusEntry {
 		return outboxScenario(M{"type": "Create", "actor": alice(), "to": carol(), "bcc": A{erin()},
 			"object": A{note("", M{"attributedTo": bob(), "cc": dave()}), M{"type": "Article", "name": "x", "bto": erin()}}}, func(sc *sim.Scenario) { sc.Cfg.SocWrapped = g.Bool() })
 	})
+	add("outbox.Create.anonymous-attribution", func(g *prng.R) *sim.Scenario {
+		// the vocabulary's own example of an attribution: a person who is
+		// named, without an id; also as one of the Create's actors
+		return outboxScenario(M{"type": "Create", "actor": A{alice(), M{"type": "Person", "name": "a co-author without id"}}, "to": carol(),
+			"object": note("", M{"attributedTo": A{M{"type": "Person", "name": "Sally"}, bob()}})}, func(sc *sim.Scenario) { sc.Cfg.SocWrapped = g.Bool() })
+	})
+	add("outbox.Note.anonymous-attribution", func(g *prng.R) *sim.Scenario {
+		return outboxScenario(note("", M{"to": carol(), "attributedTo": A{M{"type": "Person", "name": "Sally"}}}), func(sc *sim.Scenario) { sc.Cfg.SocWrapped = g.Bool() })
+	})
 	add("outbox.Update", func(g *prng.R) *sim.Scenario {
 		return outboxScenario(M{"type": "Update", "actor": alice(), "to": carol(), "object": M{"type": "Note", "id": L + "/notes/1", "content": "new", "summary": nil}}, func(sc *sim.Scenario) {
 			ownedNote(sc, 1, M{"summary": "old summary", "name": "keep"})
